@@ -11,7 +11,7 @@ UNITS = {
 PROPS = {
     "C14": dict(
         level="exploration",
-        technique="property-based testing (rapid): differential against bit-level / big-integer reference models",
+        technique="property-based testing (rapid) plus, in the thorough tier, native coverage-guided go fuzzing: differential against bit-level / big-integer reference models",
         rule="cases drawn by rapid generators. Classifier cases: a CIDR (every prefix 0..32/0..128, byte/word boundaries and neighbours over-represented, "
              "IPNet with/without host bits, IPv4 in 4- and 16-byte form) plus 1..4 probe addresses (inside; inside with one bit flipped at prefix boundary -2..+2; arbitrary) "
              "in a header whose other address field holds an unrelated/inside/complement address; non-trivial = prefix length not a multiple of 8 (IPv4) / 32 (IPv6) or a one-bit-flip probe. "
@@ -36,6 +36,9 @@ PROPS = {
             dict(unit="c14datapath", test="TestVerifC14DstIPRule", quick=40000, thorough=2000000),
             dict(unit="c14drvutils", test="TestVerifC14RouteTableID", quick=8000, thorough=400000),
             dict(unit="c14link", test="TestVerifC14VethName", quick=24000, thorough=1000000),
+            # thorough tier only: native coverage-guided fuzzing of the same oracles
+            dict(unit="c14tc", fuzz="FuzzVerifC14U32Src", seconds=45),
+            dict(unit="ip", fuzz="FuzzVerifC14Gateway", seconds=45),
         ],
     ),
 }
